@@ -15,7 +15,7 @@
                                                                  unknown names skipped)
     frontend/query.go:231-250 + utils/io/numpy.go:147,176       assemble: NewNumpyMultiDataset of one series,
       NewNumpyMultiDataset / NumpyMultiDataset.Append            Append of the others: rejected unless the
-                                                                 column-name lists are equal
+                                                                 column names AND types are equal
     utils/io/numpy.go:97 ToColumnSeries(start, len)             each key reads back its own rows (the
                                                                  dataset's types are those of the FIRST
                                                                  series in map order: equal under the guard
@@ -100,12 +100,21 @@ Fixpoint names_eqb (a b : list name) : bool :=
 
 Definition cs_names (cs : cser) : list name := map cname' cs.
 
-(** NewNumpyMultiDataset + Append: all series must carry the same column-name list *)
+(** column names and element types, pointwise (Append as of /repo commit 0e33ed2 compares the type
+    strings as well as the names) *)
+Fixpoint shapes_eqb (a b : cser) : bool :=
+  match a, b with
+  | [], [] => true
+  | x :: a', y :: b' => bytes_eqb (cname' x) (cname' y) && Z.eqb (snd (fst x)) (snd (fst y)) && shapes_eqb a' b'
+  | _, _ => false
+  end.
+
+(** NewNumpyMultiDataset + Append: all series must carry the same column names and types *)
 Definition assemble (hs : list (name * cser)) : Res (list (name * cser)) :=
   match hs with
   | [] => Rejected                                    (* "no files returned from query parse" *)
   | (_, c0) :: _ =>
-      if forallb (fun h => names_eqb (cs_names (snd h)) (cs_names c0)) hs then Ok hs else Rejected
+      if forallb (fun h => shapes_eqb (snd h) c0) hs then Ok hs else Rejected
   end.
 
 (** DataService.Query for one request with an explicit symbol list *)
@@ -126,9 +135,9 @@ Fixpoint find_key (s : name) (r : list (name * cser)) : option cser :=
 Fixpoint nodup_b (l : list name) : bool :=
   match l with [] => true | x :: r => negb (existsb (bytes_eqb x) r) && nodup_b r end.
 
-(** every catalogued symbol that is hit projects to the same column-name list *)
+(** every catalogued symbol that is hit projects to the same column names and types *)
 Definition compat (cat : catalog) (syms cols : list name) : bool :=
   match hits cat syms cols with
   | [] => true
-  | (_, c0) :: hs => forallb (fun h => names_eqb (cs_names (snd h)) (cs_names c0)) hs
+  | (_, c0) :: hs => forallb (fun h => shapes_eqb (snd h) c0) hs
   end.
